@@ -56,6 +56,8 @@ var c20Templates = []struct{ name, code string }{
 	{"assign-member", "t = %s; r = \"ok\"; try { t.z = 9; r = t } catch e { r = \"E\" }"},
 	{"delete", "t = %s; r = \"ok\"; try { delete(t, \"k\"); r = t } catch e { r = \"E\" }"},
 	{"defer", "r = \"ok\"; try { func() { defer %s(1) }() } catch e { r = \"E\" }"},
+	{"delete-flag", "gq = 1; func() { delete(\"gq\", %s) }(); r = (gq ?? \"gone\")"},
+	{"make-type", "r = \"ok\"; try { make(type TQ, %s); r = [make(TQ)] } catch e { r = \"E\" }"},
 	{"defer-arg", "r = 0; func() { defer func(a) { r = [a] }(%s) }(); r"}, {"defer-go-arg", "r = 0; func() { defer probe(%s) }(); r"},
 	{"var", "var q = %s; r = q"}, {"multi", "q, w = (%s); r = [q, w ?? \"undef\"]"},
 	{"return", "r = func() { return %s, 1 }()"}, {"arg-go", "r = probe(%s)"}, {"arg2", "r = probe2(1, %s)"},
